@@ -227,12 +227,12 @@ func HasBad(pp []Part) string {
 	for _, p := range pp {
 		switch p.Kind {
 		case KNil:
-			return "nil part inside a list"
+			return "nil-part-in-list"
 		case KUnknown:
-			return "part of unknown type"
+			return "unknown-part-type"
 		case KRange, KAmb:
 			if p.Hi <= p.Lo {
-				return fmt.Sprintf("empty or inverted span [%d,%d)", p.Lo, p.Hi)
+				return "empty-or-inverted-span"
 			}
 		}
 	}
